@@ -10,3 +10,7 @@ mod c18;
 mod c19;
 #[path = "/verif/kani/lib/c13.rs"]
 mod c13;
+#[path = "/verif/kani/models/maps.rs"]
+pub(crate) mod maps;
+#[path = "/verif/kani/lib/c14.rs"]
+mod c14;
